@@ -1,4 +1,5 @@
 import UVerif.Basic
 import UVerif.Spec.Posit
 import UVerif.Model.Posit
+import UVerif.Model.Quire
 import UVerif.Driver.All
